@@ -178,6 +178,15 @@ def main(argv=None):
             for r in results:
                 if r["name"] in by:
                     r["cross_check"] = by[r["name"]]
+            # frame units: the native history scripts (read-only use, history independence, one-shot
+            # iterators, concurrent parses) on the tree as it is
+            fx = [r for r in results if r.get("engine") == "fxvc" and r["status"] == "ok"]
+            if fx:
+                try:
+                    from vlib import native_frames
+                    fx[0]["cross_checks"] = native_frames.cross_check()
+                except Exception as e:
+                    fx[0].setdefault("notes", []).append("history cross-check failed to run: " + repr(e)[:200])
     from vlib import verdict
     return verdict.conclude(a.prop, tier, seed, results, time.time() - t0, reg)
 
